@@ -79,6 +79,7 @@ static bool gen_c09(uint64_t seed, const std::string &tier, uint64_t i, Plan &p)
     }
     p.ops.push(Json::obj().set("op", "stream").set("bytes", st)); p.knobs.set("agents", ag);
     p.label = "spawner leg: " + std::to_string(n) + " deliveries";
+    if (r.chance(0.15)) { Fault f; f.actor = "qmail-rspawn#"; f.call = r.pick(std::vector<CallId>{C_FSTAT, C_PIPE, C_FORK, C_FORK}); f.nth = (int)r.range(1, 4); f.kind = "error"; f.err = r.pick(std::vector<int>{EAGAIN, ENOMEM, EMFILE, EIO}); p.faults.push_back(f); p.label += " +spawner fault"; }
     return true;
   }
   so_knobs(r, p);
@@ -187,6 +188,10 @@ static bool gen_c17_inject(Rng &r, Plan &p) {
     hdr += name + (r.chance(0.8) ? "" : r.pick(std::vector<std::string>{" ", "\t", " \t", "\t "})) + ":" + (r.chance(0.8) ? " " : "") + list + "\n";
   }
   if (r.chance(0.5)) hdr = "From: Sender Person <sender@x.example>\n" + hdr;
+  // an mbox separator in front of the header (the message was piped in from a mailbox): it is kept as an MBOX-Line field and changes nothing else
+  if (r.chance(0.08)) hdr = "From someone@x.example Thu Jan  1 00:00:00 1970\n" + hdr;
+  // the user's list of mailing lists: when a recipient is on it a Mail-Followup-To field is added; the envelope stays what the header says
+  if (r.chance(0.15)) { env.set("QMAILMFTFILE", "/home/user1/mft"); p.knobs.set("env", env).set("mft", r.pick(std::vector<std::string>{"joe@x.example\n", "Joe.Shmoe@Mixed.Example\nu-v_w+z@x.example\n", "nobody@nowhere.example\n", "", "joe@x.example\njoe@shost.dd.example\njoe@a.b.c.d.example\n"})); }
   if (r.chance(0.12)) hdr.pop_back();              // a message that is only a header and whose last line (a recipient field) lacks its newline
   else if (r.chance(0.1)) {}                        // header only, properly ended
   else { if (r.chance(0.3)) hdr += "Subject: s\n"; hdr += r.chance(0.9) ? "\nbody line\n" : "\nbody without newline"; }
